@@ -90,7 +90,69 @@ def gen(rng):
             "exported_script_tags": sorted(set(tags) | ({"deva"} if "dev2" in tags else set()))}
 
 
+def cross_script_section(ctx):
+    """kerning pairs BETWEEN scripts, linking three to five declared left-to-right scripts into chains (some scripts kerned only
+    across scripts): every script of a pair's glyphs must reach, from its default language system, a generated kern lookup that
+    applies the pair's value -- and, as everywhere, mark positioning too"""
+    import ufo2ft
+    from fontTools.ttLib import TTFont
+    rng = ctx.subrng("cross-script")
+    POOL = {"latn": [("A", 0x41), ("V", 0x56)], "cyrl": [("a-cy", 0x430), ("be-cy", 0x431)], "grek": [("alpha", 0x3B1), ("beta", 0x3B2)],
+            "armn": [("ayb-arm", 0x561), ("ben-arm", 0x562)], "geor": [("an-georgian", 0x10D0), ("ban-georgian", 0x10D1)]}
+    for i in range(ctx.budget(24, 120)):
+        tags = rng.sample(list(POOL), rng.randint(3, 5))
+        script_of, glyphs = {}, []
+        for t in tags:
+            for n, u in POOL[t]:
+                script_of[n] = t
+                glyphs.append({"name": n, "unicodes": [u], "width": 500, "anchors": [("top", Fr(250), Fr(700))], "contours": []})
+        glyphs.append({"name": "acutecomb", "unicodes": [0x301], "width": 0, "contours": [], "anchors": [("_top", Fr(0), Fr(500))]})
+        # links: a spanning chain (or tree) over the scripts, listed in random order; own-script pairs for some scripts only
+        links = [(tags[k], tags[k + 1]) for k in range(len(tags) - 1)] if i % 3 else [(tags[rng.randrange(k)], tags[k]) for k in range(1, len(tags))]
+        rng.shuffle(links)
+        pairs = []
+        for k, (s1, s2) in enumerate(links):
+            if rng.random() < 0.5:
+                s1, s2 = s2, s1
+            pairs.append(((POOL[s1][k % 2][0], POOL[s2][(k + 1) % 2][0]), Fr(-10 - 3 * k)))
+            if rng.random() < 0.5:
+                pairs.append(((POOL[s1][(k + 1) % 2][0], POOL[s2][k % 2][0]), Fr(-11 - 3 * k)))
+        for t in tags:
+            if rng.random() < 0.5:
+                pairs.append(((POOL[t][0][0], POOL[t][1][0]), Fr(-40)))
+        rng.shuffle(pairs)
+        ls = [("DFLT", "dflt")] + [(t, "dflt") for t in tags]
+        desc = {"glyphs": glyphs, "kerning": dict(pairs), "features": "".join("languagesystem %s %s;\n" % sl for sl in ls)}
+        lib = ["ufoLib2", "defcon"][i % 2]
+        case = {"font": jsonable(dict(desc, kerning={"%s|%s" % k: v for k, v in desc["kerning"].items()})), "lib": lib,
+                "links": links, "level": "cross-script kerning chains"}
+        ctx.count(); ctx.klass("cross-script: %d scripts, %s" % (len(tags), "chain" if i % 3 else "tree")); ctx.nontriv(("xs", i, ctx.scale))
+        try:
+            tt = (ufo2ft.compileTTF if i % 4 else ufo2ft.compileOTF)(build_font(desc, lib), useProductionNames=False)
+            buf = io.BytesIO(); tt.save(buf); buf.seek(0); tt = TTFont(buf)
+        except Exception as e:
+            ctx.spec_failure(case, "compile raised %s: %s\n%s" % (type(e).__name__, e, traceback.format_exc()[-1200:]))
+            continue
+        lay = Layout(tt)
+        sc = lay.scripts()
+        bad = None
+        for t in tags:
+            feats = sc.get(t, {}).get("dflt", [])
+            for f in ("kern", "mark"):
+                if f not in feats:
+                    bad = bad or "declared script %s (kerned%s) does not expose the generated %s feature: %r" % (
+                        t, "" if any(script_of[a] == script_of[b] == t for (a, b), _ in pairs) else " only across scripts", f, feats)
+        for (a, b), v in desc["kerning"].items():
+            for t in {script_of[a], script_of[b]}:
+                got = lay.pair_adjust(lay.lookups_for(t, {"kern", "dist"}), a, b)
+                if got[0] != v:
+                    bad = bad or "pair (%s, %s) = %s is not applied under script %s (got %r)" % (a, b, v, t, got[:3])
+        if bad:
+            ctx.spec_failure(case, bad)
+
+
 def explore(ctx):
+    cross_script_section(ctx)
     import ufo2ft
     from fontTools.ttLib import TTFont
     rng = ctx.subrng("reach")
